@@ -26,6 +26,16 @@ def check(rep, ctx):
     R_N = rep.rule("C05-ii-sentinel", "reader and writer use the same single null sentinel", floor=450)
     R_X = rep.rule("C05-iii-text", "reader and writer agree on the text codec and error mode", floor=1000)
     R_C = rep.rule("C05-iv-closure", "the reader's result format is the sibling writer's input format", floor=5000)
+    R_NA = rep.rule("C05-ii-null-array", "an array reader maps the null marker to None (or rejects it); it never falls through to an empty array",
+                    floor=1000)
+    R_TD = rep.rule("C05-viii-time-writer-domain", "the duration writers accept every timedelta their sibling readers can return (analysed on a plain "
+                   "datetime.timedelta, guards evaluated at the extremes)", floor=2)
+    from .wire import time_writer_domain_rows
+    for ok_, c_, stmt_, msg_, file_, line_ in time_writer_domain_rows(ctx):
+        if ok_ is None:
+            rep.limit(f"{c_}: {msg_}")
+            continue
+        rep.check(R_TD, ok_, construct=c_, stmt=stmt_, message=msg_, file=file_, line=line_)
     R_V = rep.rule("C05-v-length-domain", "a length-limited writer accepts every length its prefix format can carry (what the "
                    "reader can return, the writer can write)", floor=300,
                    necessary_because="a legacy string of exactly 32767 bytes is decoded but cannot be re-encoded")
@@ -64,6 +74,18 @@ def check(rep, ctx):
             rep.check(R_C, not [d for d in diffs if "null" not in d and "payload" not in d], construct=construct,
                       stmt=f"{pf['r_codec']['fn']} / {pf['w_codec']['fn']}",
                       message="; ".join(d for d in diffs if "null" not in d and "payload" not in d), **W.codec_loc(pf.get("r_codec")))
+            # a null array is read as None (and written back as null): a reader without a null arm must at least reject the marker
+            rraw = pf["r"]
+            if rraw.get("k") == "array":
+                from ..grammar import eval_int_term
+                wire_null = -1 if (rraw.get("prefix") or {}).get("k") == "fixed" else 0
+                rejects = any((lambda v: v is not None and bool(v) != bool(g.get("holds")))(eval_int_term(g.get("cond"), wire_null))
+                              for g in rraw.get("range_guards") or [])
+                rep.check(R_NA, rraw.get("null") is not None or rejects, construct=construct, stmt=f"array reader null arm: {rraw.get('null')}",
+                          message="the array reader has no arm for the null marker and does not reject it: a null array (length -1 / compact 0) "
+                                  "runs the item loop zero times and comes back as an empty array, which is written back as length 0 -- "
+                                  "`null` (e.g. 'cancel the reassignment', 'all configuration keys') silently becomes `empty`",
+                          **W.codec_loc(pf.get("r_codec")))
             # length domain of fixed-width length prefixes, through arrays
             wd = pf["w"]
             while wd is not None:
